@@ -36,16 +36,22 @@ Proof. exact underscore_or_needs_sep. Qed.
 Print Assumptions C08_underscore_or_needs_sep.
 
 (* internal/pretty's unary merge test is exactly the separation table on pairs of
-   unary operators; printer.go's mayCombine misses exactly seven pairs *)
+   unary operators; printer.go's mayCombine (with opCombinesWith, since the fix of K1)
+   covers every such pair, in particular the seven it used to miss *)
 Theorem C08_v2_unary_merges_exact : forall o o', In o unops -> In o' unops ->
   v2_unary_merges o o' = needs_sep (TOp o) (TOp o').
 Proof. exact v2_unary_merges_exact. Qed.
 Print Assumptions C08_v2_unary_merges_exact.
 
-Theorem C08_v1_may_combine_missed_exactly : forall o o', In o unops -> In o' unops ->
-  (needs_sep (TOp o) (TOp o') = true /\ v1_may_combine (TOp o) (TOp o') = false) <-> In (o, o') v1_missed.
-Proof. exact v1_may_combine_missed_exactly. Qed.
-Print Assumptions C08_v1_may_combine_missed_exactly.
+Theorem C08_v1_may_combine_complete : forall o o', In o unops -> In o' unops ->
+  needs_sep (TOp o) (TOp o') = true -> v1_may_combine (TOp o) (TOp o') = true.
+Proof. exact v1_may_combine_complete. Qed.
+Print Assumptions C08_v1_may_combine_complete.
+
+Theorem C08_v1_formerly_missed_now_separated : forall o o', In (o, o') v1_missed ->
+  needs_sep (TOp o) (TOp o') = true /\ v1_may_combine (TOp o) (TOp o') = true.
+Proof. exact v1_formerly_missed_now_separated. Qed.
+Print Assumptions C08_v1_formerly_missed_now_separated.
 
 (* ---- trees: printer V1 (cue/format/node.go) ------------------------------ *)
 
@@ -184,17 +190,17 @@ Theorem C08_v2_reads_back_when_no_hazard : forall e, valid e -> atoms_wf e -> v2
 Proof. exact v2_reads_back_when_no_hazard. Qed.
 Print Assumptions C08_v2_reads_back_when_no_hazard.
 
-(* K1: formatter V1 prints `<-1` for `< -1`;  K2 (fixed): formatter V2 keeps the blank of `1 .a` *)
-Theorem C08_v1_glues_lss_sub_refuted :
+(* K1 (fixed): formatter V1 keeps the blank of `< -1`;  K2 (fixed): formatter V2 keeps the blank of `1 .a` *)
+Theorem C08_v1_separates_lss_sub :
   let e := EUn LSS (EUn SUB one) in
   valid e /\ Forall tok_wf (print1 e) /\
-  hazards (sp1 e 0) = [(TOp LSS, TOp SUB)] /\
-  scan (render (resolve (fun _ => true) 0 (sp1 e 0))) = Some [TOp ARROW; TInt [49%N]] /\
-  parse [TOp ARROW; TInt [49%N]] = None /\
+  hazards (sp1 e 0) = [] /\ sep_ok (sp1 e 0) = true /\
+  scan (render (resolve (fun _ => false) 0 (sp1 e 0))) = Some (print1 e) /\
+  parse (print1 e) = Some e /\
   hazards (sp2 MDisp e) = [] /\
   scan (render (resolve (fun _ => true) 0 (sp2 MDisp e))) = Some (print2 e).
-Proof. exact v1_glues_lss_sub_refuted. Qed.
-Print Assumptions C08_v1_glues_lss_sub_refuted.
+Proof. exact v1_separates_lss_sub. Qed.
+Print Assumptions C08_v1_separates_lss_sub.
 
 Theorem C08_v2_separates_int_period :
   let e := ESel one (TIdent [97%N]) in
